@@ -80,7 +80,7 @@ pub fn generate(run_seed: u64, corpus: &Corpus, sw: &Swarm, i: u64, exhaustive: 
         3..=5 => Client::PeekNext,
         6 => Client::LoadMulti,
         7 => Client::LoadSingle,
-        _ => Client::Loader(r.below(4) as u8, *r.pick(&[0u8, 0, 0, 1, 2])),
+        _ => Client::Loader(r.below(4) as u8, *r.pick(&[0u8, 0, 0, 0, 0, 1, 1, 1, 1, 2])),
     };
     let peeks = if client == Client::PeekNext {
         let k = 1 + r.usize(7);
